@@ -5,7 +5,7 @@ import concurrent.futures as cf
 import multiprocessing as mp
 import re
 
-from contracts import c10_thriftobj, c10_markerframe, cy
+from contracts import c10_thriftobj, c10_markerframe, c10_fieldwidth, cy
 from vlib.common import PROVED, REFUTED, UNKNOWN
 
 # obligation (regex) -> known finding; a refutation is 'known' only if the finding is listed AND the same obligation posed with the
@@ -22,7 +22,8 @@ FUNC_OF = {"init": "ThriftObject.__init__", "class": "ThriftObject", "thriftobj"
            "from_fields": "ThriftObject.from_fields", "parquet_thrift": "parquet_thrift.__getattr__", "copy": "ThriftObject.copy", "deepcopy": "ThriftObject.__deepcopy__",
            "to_bytes": "ThriftObject.to_bytes", "from_buffer": "from_buffer", "reduce": "ThriftObject.__reduce_ex__", "pickle": "ThriftObject.__reduce_ex__ + from_buffer",
            "dict_eq": "dict_eq", "eq": "ThriftObject.__eq__", "asdict": "ThriftObject._asdict",
-           "marker": "writer.py/api.py/schema.py/util.py/core.py/dataframe.py (width-marker frame)"}
+           "marker": "writer.py/api.py/schema.py/util.py/core.py/dataframe.py (width-marker frame)",
+           "thrift_field": "writer.py/api.py/util.py/schema.py (thrift field sites)"}
 
 
 def _task(t):
@@ -37,7 +38,7 @@ def _task(t):
 
 def p_thriftobj(ctx):
     cy.register(ctx, c10_thriftobj.FUNCTIONS)
-    for a in c10_thriftobj.ASSUMED + c10_markerframe.ASSUMED:
+    for a in c10_thriftobj.ASSUMED + c10_markerframe.ASSUMED + c10_fieldwidth.ASSUMED:
         if a not in ctx.assumptions:
             ctx.assumptions.append(a)
     timeout = 10000 if ctx.tier == "quick" else 60000
